@@ -17,6 +17,7 @@ cd /verif
 
 
 VERIF_REPO=$wt ./check $prop > $out/check_with_patch.log 2>&1; rcc=$?
+/verif/tools/regen_from_repo.sh > /dev/null
 
 
 echo "check $prop with patch: rc=$rcc"
